@@ -1557,4 +1557,65 @@ example : ∃ r, pySliceArr ⟨[2, 3, 4], (List.range 24).toArray⟩ [⟨some (-
     (3 - 2, 2, 1) (0, 1, 1) (1, 4, 2) (by decide) (by decide) (by decide)
   exact ⟨r, hr, by rw [hs]; decide⟩
 
+/-! ## deepen8 — extents, offset arithmetic, axis bookkeeping -/
+
+/-- sub-box extents: one extent per axis of the box -/
+theorem boxShape_length (box : Box) : (boxShape box).length = box.length := by
+  simp [boxShape]
+
+/-- **sub-box shape = slice lengths**: the reference slice has shape `stop - start` per axis -/
+theorem sliceArr_shape (a : Arr Nat) (box : Box) :
+    (sliceArr a box).shape = box.map (fun s => (s.2 - s.1).toNat) := by
+  simp [sliceArr, Arr.ofFn, boxShape, List.map_map, Function.comp_def]
+
+/-- the full-box shortcut is taken only when every extent equals the stored axis length exactly -/
+theorem isFullBox_iff (box : Box) (shape : List Nat) :
+    isFullBox box shape = true ↔ boxShape box = shape.map (fun (n : Nat) => (n : Int)) := by
+  simp [isFullBox]
+
+/-- row-major offsets: the next row starts one row (`nx` items) further -/
+theorem rowOffset_succ_row (header ny nx b z y x0 : Nat) :
+    rowOffset header ny nx b z (y + 1) x0 = rowOffset header ny nx b z y x0 + nx * b := by
+  simp only [rowOffset]; ring
+
+/-- row-major offsets: the next plane starts one plane (`ny·nx` items) further -/
+theorem rowOffset_succ_plane (header ny nx b z y x0 : Nat) :
+    rowOffset header ny nx b (z + 1) y x0 = rowOffset header ny nx b z y x0 + ny * (nx * b) := by
+  simp only [rowOffset]; ring
+
+/-- row-major offsets: moving the start column by `k` moves the offset by `k` items; never before the header -/
+theorem rowOffset_add_col (header ny nx b z y x0 k : Nat) :
+    rowOffset header ny nx b z y (x0 + k) = rowOffset header ny nx b z y x0 + k * b ∧
+    header ≤ rowOffset header ny nx b z y x0 := by
+  refine ⟨by simp only [rowOffset]; ring, by simp only [rowOffset]; omega⟩
+
+/-- row-major offsets within a row are injective in the column for a positive item size -/
+theorem rowOffset_col_injective (header ny nx b z y x0 x0' : Nat) (hb : 0 < b)
+    (h : rowOffset header ny nx b z y x0 = rowOffset header ny nx b z y x0') : x0 = x0' := by
+  simp only [rowOffset] at h
+  exact Nat.eq_of_mul_eq_mul_right hb (by omega)
+
+/-- the completed MRC box and the box in file axes always have one entry per stored axis -/
+theorem mrc_boxes_length (crs : List Nat) (box : Box) (shape : List Nat) :
+    (mrcPadBox box shape).length = shape.length ∧ (mrcCrsBox crs box shape).length = shape.length := by
+  simp [mrcPadBox, mrcCrsBox]
+
+/-- axis-order bookkeeping: `transpose` by `p` yields shape `shape[p]`, of rank `|p|`, and `argsort p` has `|p|` entries -/
+theorem transposeArr_shape (a : Arr Nat) (p : List Nat) :
+    (transposeArr a p).shape = permute p a.shape 0 ∧ (permute p a.shape 0).length = p.length ∧
+    (invPerm p).length = p.length := by
+  simp [transposeArr, Arr.ofFn, permute, invPerm]
+
+/-- **sub-box by the full box = full read**: on the shortcut the result is the whole payload in the stored shape -/
+theorem loadSubset_full_box (f : Bytes) (header : Nat) (shape : List Nat) (b : Nat) (box : Box) (r : Arr Nat)
+    (hfull : isFullBox box shape = true) (h : loadSubset f header shape b box = .ok r) :
+    r = ⟨shape, (readRow f header (prodL shape) b).toArray⟩ ∧ header + prodL shape * b ≤ f.length := by
+  simp only [loadSubset, hfull, if_true] at h
+  split at h
+  · cases h
+  · injection h with h; exact ⟨h.symm, by omega⟩
+
+example : isFullBox [(0, 1), (0, 1), (0, 2)] [1, 1, 2] = true ∧
+    ∃ r, loadSubset [7, 8] 0 [1, 1, 2] 1 [(0, 1), (0, 1), (0, 2)] = .ok r := ⟨by decide, _, rfl⟩
+
 end Pm.C08
